@@ -46,7 +46,7 @@ def queries(tier):
                     desc='as dsformat, has_mask=%d flags=%d fixed' % (hm, fl), bounds='len(data) == %d, all byte values, all masks' % L))
     PLOOP = '_ZN5phosg17parse_data_stringERKNSt7__cxx1112basic_stringIcSt11char_traitsIcESaIcEEEPS5_m.0:%d'
     for L in ([0, 1] if quick else [0, 1, 2, 3]):
-        qs.append(Q('dsparse_len%d' % L, 'P', 'h_dsparse.c', {'LEN': L}, 10, unwindset=PLOOP % (L + 2), mem_gb=12, timeout=1800,
+        qs.append(Q('dsparse_len%d' % L, 'P', 'h_dsparse.c', {'LEN': L}, 10 if L <= 2 else 14, unwindset=PLOOP % (L + 2), mem_gb=12, timeout=1800,
                     desc='parse_data_string on %d arbitrary symbolic bytes equals the reference data-string parser (data and mask), strtoull/strtod/strtof contract stubs' % L,
                     bounds='len(text) == %d, all byte values, mask requested or not, flags == 0' % L))
     for L in ([0] if quick else [0, 1]):
